@@ -9,7 +9,8 @@ RULE = ('(a) every game of families A and B with the Rabin(1) objective: '
         '(players and actions swapped, Moore<->Mealy, plus_one negated, '
         'holds := ~G_j, goals := ~P_k) is built in a fresh context and the '
         'two regions must partition the full bit range and match the '
-        'arena\'s partition. non-trivial = reference region neither empty '
+        'arena\'s partition; (c) sequences of Rabin games solved in one '
+        'reused automaton with modes rotated. non-trivial = reference region neither empty '
         'nor full; distinct = distinct game description')
 ASSUMPTIONS = [
     'dd (cudd, autoref) is trusted',
@@ -20,7 +21,10 @@ ASSUMPTIONS = [
 def shards(tier, seed):
     out = []
     for sh in fam.game_shards(tier, seed):
-        for part in ('rabin', 'dual'):
+        for part in ('rabin', 'dual', 'seq'):
+            if part == 'seq' and sh['tier'] == 'thorough' and \
+                    sh['backend'] == 'cudd' and sh['fam'].startswith('A'):
+                continue
             s = dict(sh)
             s['part'] = part
             out.append(s)
@@ -32,7 +36,9 @@ def scope(tier, seed):
 
 
 def cases(shard):
-    if shard['part'] == 'rabin':
+    if shard['part'] == 'seq':
+        yield from fam.game_sequences(shard, rabin=True)
+    elif shard['part'] == 'rabin':
         yield from fam.games(shard, rabin=True)
     else:
         for c in fam.games(shard, rabin=False):
@@ -63,6 +69,8 @@ def run_case(case, acc):
     from omega.games import gr1
     if 'dual_of' in case:
         return run_dual(case['dual_of'], case, acc)
+    if 'steps' in case:
+        return run_seq(case, acc)
     aut = fam.build_game(case)
     gm = fam.GameModel(aut, case)
     P = [gm.state_table(u) for u in aut.win['<>[]']]
@@ -116,3 +124,27 @@ def run_dual(c, case, acc):
             'dual_region_mismatch', case,
             detail=dict(vars=gm.svars, rabin_dual=sorted(zr),
                         arena_opponent=sorted(allst - ref)))
+
+
+def run_seq(case, acc):
+    """Several Rabin games solved one after the other in ONE automaton."""
+    from omega.games import gr1
+    aut = fam.build_game(dict(case, **case['steps'][0]))
+    gm = fam.GameModel(aut, case)
+    for i, st in enumerate(case['steps']):
+        aut.moore, aut.plus_one = bool(st['moore']), bool(st['plus_one'])
+        aut.win['<>[]'] = [fam.pred_bdd(aut, p) for p in st['P']]
+        aut.win['[]<>'] = [fam.pred_bdd(aut, g) for g in st['G']]
+        P = [gm.state_table(u) for u in aut.win['<>[]']]
+        G = [gm.state_table(u) for u in aut.win['[]<>']]
+        zk, _, _ = gr1.solve_rabin_game(aut)
+        got = gm.state_table(zk[-1])
+        ref = gm.winning(P, G, rabin=True, moore=aut.moore,
+                         plus_one=aut.plus_one)
+        acc.ev(dict(seq=case, i=i), 0 < len(ref) < len(gm.states))
+        if got != ref:
+            acc.violation(
+                'rabin_region_mismatch_in_reused_automaton', case,
+                detail=dict(step=i, vars=gm.svars, missing=sorted(ref - got),
+                            extra=sorted(got - ref)))
+            return
